@@ -130,7 +130,8 @@ def work(job, scratch):
                 import ase
                 from ase import units
                 from infretis.classes.engines.ase_engine import ASEEngine
-                calc = "/repo/examples/ase/H2/H2-calc.py"
+                calc = os.path.join(os.environ.get("VERIF_REPO", "/repo"),
+                                    "examples/ase/H2/H2-calc.py")
                 eng = ASEEngine(0.5, 300.0, rng.choice([1, 2]), ".",
                                 "langevin",
                                 {"module": calc, "class": "LennardJonesCalc",
